@@ -35,8 +35,13 @@ def do_match(fa, ta, fb, tb, emb, s, e, I):
 def replay_pair(col, item):
     case, emb_name, layout_a, layout_b = item
     emb = EMBEDDINGS[emb_name]
-    ta = Tree([tuple(f) for f in case["F"]], emb, layout_a, "fullend")
-    tb = Tree([tuple(f) for f in case["G"]], emb, layout_b, "fullend")
+    # the tag plays no role in MatchOK; concretely it makes the PATH order of the files differ from their time order
+    # (names start with the tag: the earliest files get the tag that sorts last)
+    def retag(files):
+        files = sorted((tuple(f) for f in files), key=lambda f: (f[1], f[2]))
+        return [f[:3] + (3 - (2 * i) // max(1, len(files)),) for i, f in enumerate(files)]
+    ta = Tree(retag(case["F"]), emb, layout_a, "fullend")
+    tb = Tree(retag(case["G"]), emb, layout_b, "fullend")
     times = {f[0]: (f[1], f[2]) for f in case["F"] + case["G"]}
     try:
         fa, fb = ta.fileset(), tb.fileset()
